@@ -1473,6 +1473,14 @@ int EGLPNUM_TYPENAME_ILLlib_delrows (
 	}
 	for (i = 0; i < num; i++)
 	{
+		/* the counts below are decreased by num: a row listed twice is an error */
+		if (rowmark[dellist[i]])
+		{
+			QSlog("EGLPNUM_TYPENAME_ILLlib_delrows: row %d is listed more than once",
+									dellist[i]);
+			rval = 1;
+			ILL_CLEANUP;
+		}
 		rowmark[dellist[i]] = 1;
 	}
 
@@ -1727,6 +1735,14 @@ int EGLPNUM_TYPENAME_ILLlib_delcols (
 	}
 	for (i = 0; i < num; i++)
 	{
+		/* the counts below are decreased by num: a column listed twice is an error */
+		if (colmark[qslp->structmap[dellist[i]]])
+		{
+			QSlog("EGLPNUM_TYPENAME_ILLlib_delcols: column %d is listed more than once",
+									dellist[i]);
+			rval = 1;
+			ILL_CLEANUP;
+		}
 		colmark[qslp->structmap[dellist[i]]] = 1;
 	}
 
